@@ -1173,6 +1173,78 @@ run_plain(void *arg)
 	vh_fini();
 }
 
+// BUS reflector: nng_device_aio(aio, s, s) on ONE raw BUS socket with three cooked peers.  A burst from one
+// peer (so that all but the first message wait in the raw socket's receive queue) reaches each of the
+// other peers once, in order, unchanged - and never comes back to its sender.
+static void
+run_reflector(void *arg)
+{
+	(void) arg;
+	vh_init(0);
+	nng_socket d, P[3];
+	nng_aio   *aio = NULL;
+	int        nb  = 1 + vs_choose(VK_ENV, 4); // burst of 1..4
+	int        who = vs_choose(VK_ENV, 3);
+	VH_OK(nng_bus0_open_raw(&d));
+	VH_OK(nng_listen(d, "inproc://c13-reflector", NULL, 0));
+	for (int i = 0; i < 3; i++) {
+		VH_OK(nng_bus0_open(&P[i]));
+		VH_OK(nng_dial(P[i], "inproc://c13-reflector", NULL, 0));
+	}
+	pd_done = 0;
+	VH_OK(nng_aio_alloc(&aio, pd_cb, &aio));
+	nng_device_aio(aio, d, d);
+	vs_settle();
+	if (pd_done > 0)
+		vs_fail("C13:device-stopped", "bus reflector device ended at once with %s", nng_strerror(pd_rv));
+	for (int round = 0; round < 2; round++) {
+		for (int k = 0; k < nb; k++) {
+			char b[8];
+			snprintf(b, sizeof(b), "r%d-%d", round, k);
+			if (vh_send_nb(P[who], b, 4) != 0)
+				vs_fail("C13:plain-device", "bus peer cannot send");
+		}
+		vs_settle();
+		for (int i = 0; i < 3; i++) {
+			for (int k = 0;; k++) {
+				uint8_t buf[16];
+				size_t  n  = 0;
+				int     rv = vh_recv_nb(P[i], buf, sizeof(buf), &n);
+				char    b[8];
+				snprintf(b, sizeof(b), "r%d-%d", round, k);
+				if (rv != 0) {
+					if (i != who && k != nb)
+						vs_fail("C13:plain-device",
+						    "bus reflector, burst of %d from peer %d: peer %d received %d "
+						    "of them",
+						    nb, who, i, k);
+					break;
+				}
+				if (i == who)
+					vs_fail("C13:reflector-echo",
+					    "bus reflector, burst of %d: message \"%.*s\" came back to the peer "
+					    "that sent it",
+					    nb, (int) n, (char *) buf);
+				if (k >= nb || n != 4 || memcmp(buf, b, 4) != 0)
+					vs_fail("C13:device-body",
+					    "bus reflector: peer %d received \"%.*s\" as message %d of the burst "
+					    "(want \"%s\")",
+					    i, (int) n, (char *) buf, k, b);
+			}
+		}
+	}
+	vs_nontrivial();
+	vs_outcome("nb=%d who=%d", nb, who);
+	for (int i = 0; i < 3; i++)
+		nng_socket_close(P[i]);
+	pd_done = -1;
+	nng_aio_cancel(aio);
+	nng_aio_wait(aio);
+	nng_aio_free(aio);
+	(void) nng_socket_close(d);
+	vh_fini();
+}
+
 static void
 explore_b(const char *name, void (*fn)(void *), void *arg, int preempt, int sw,
     int total, double deadline)
@@ -1220,9 +1292,11 @@ main(int argc, char **argv)
 		snprintf(nm, sizeof(nm), "plain-device-%s", PF[i].name);
 		explore(strdup(nm), run_plain, (void *) (intptr_t) i);
 	}
+	explore("plain-device-bus-reflector", run_reflector, NULL);
 	vx_note("plain-devices", "pair0 pair1 bus pushpull pubsub: one device between two raw sockets, both "
 	                         "argument orders, bodies {5,0,1,300,70000,4} bytes, both "
-	                         "directions where there are two; each body arrives once, unchanged");
+	                         "directions where there are two; each body arrives once, unchanged; bus reflector (one raw socket, three "
+	                         "peers, bursts of 1..4): every other peer once and in order, never back to the sender");
 	// thread interleavings of two concurrent requests through one/two devices
 	{
 		// budgets: preemptions, switches at blocking points, total deviations
